@@ -7,6 +7,8 @@ import XalanModel.C19.RArenaProofs
 import XalanModel.C19.AutoPtrProofs
 import XalanModel.Generated.C19_Construct
 import XalanModel.C19.OStreamProofs
+import XalanModel.C19.XMapProofs
+import XalanModel.C19.XBDequeProofs
 /-!
 # C19 — pluggable memory manager: balanced use; allocation failure is survivable
 
@@ -282,6 +284,90 @@ theorem ostream_stale_pointer_counterexample :
     (let r := OStream.run false [(.latin1, false), (.ascii, false)] {} { failAt := 3 }
      (r.1.destroy r.2).bad = 0 ∧ (r.1.destroy r.2).live = []) := by decide
 
+/-- **XalanMap: balanced and failure-contained.** The map as it is after 3252d20 (bucket slot reserved before the
+entry is linked), with `m_minBuckets ≥ 1`: every history of insert / erase / clear on a fresh map — initial bucket
+table, rehash into a temporary table and swap, bucket growth, entries recycled through `m_freeEntries`, stale
+bucket iterators of erased entries — every refusal index and every frame, as long as the history is defined (see
+`map_stale_bucket_counterexample` for the one undefined step of the code as written): nothing is freed
+twice or foreign, and after `~XalanMap` exactly the frame is outstanding plus `lostAll`: the `value_type` blocks
+whose `m_freeEntries.push_back(Entry(allocate(1)))` was refused after the `allocate(1)`, and — for mapped types whose
+copy allocates (`boxed`, e.g. XalanDOMString values: the value copy is one more refusable request) — the values
+left constructed in a free entry when the splice into `m_entries` was refused (overwritten by the next insertion or
+handed back raw by the destructor). These are the only places where the model records a leak; leaks on failure are
+allowed by the property. -/
+theorem map_balanced_and_failure_contained (minB : Nat) (boxed : Bool) (hmin : 1 ≤ minB) (ops : List XMap.Op)
+    (l : Ledger) (frame : List Nat) (hl : l.live.Perm frame) :
+    let r := XMap.run ops { minB := minB, boxed := boxed } l
+    (r.2.1.destroy r.2.2).live.Perm (r.2.1.lostAll ++ frame) ∧ (r.2.1.destroy r.2.2).bad = l.bad := by
+  intro r
+  have h0 : XMap.Inv { minB := minB, boxed := boxed } l frame l.bad :=
+    ⟨fun _ hb => by simp at hb, by simpa [XMap.owned] using holds_of_perm hl, rfl, fun _ => ⟨rfl, rfl, rfl⟩, hmin⟩
+  have hi := XMap.run_spec ops _ l frame l.bad h0
+  have hd := XMap.destroy_spec _ _ frame l.bad hi
+  refine ⟨List.perm_iff_count.mpr (fun a => ?_), hd.2⟩
+  have := hd.1 a
+  simp only [List.count_append] at this ⊢
+  exact this
+
+/-- **Code as written: after a refused value copy in `insert()` the free entry already says `erased = false` and
+carries the new key; a bucket that still holds its stale iterator makes `find()` return it.** One bucket; `ins 3; ins 1;
+erase 1` (entry of key 1 goes to the free list, its iterator stays in the bucket); `ins 2` with the value copy = request
+13 refused; `erase 2` finds the FREE entry: undefined (on the real map: double free and a wrong size()).  With
+`erased = false` set only after the splice (`lateUnerase`) the same history is defined and balanced. -/
+theorem map_stale_bucket_counterexample :
+    let ops := [XMap.Op.insert 3 30, .insert 1 10, .erase 1, .insert 2 20, .erase 2]
+    (XMap.run ops { minB := 1, boxed := true } { failAt := 13 }).1 = .ub ∧
+    (let r := XMap.run ops { minB := 1, boxed := true, lateUnerase := true } { failAt := 13 }
+     r.1 = .ok ∧ r.2.1.size = 1 ∧ (r.2.1.destroy r.2.2).live = r.2.1.lostAll ∧ (r.2.1.destroy r.2.2).bad = 0) := by
+  decide
+
+/-- every single map operation keeps the invariant and is defined (`insert` never reaches an undefined step) -/
+theorem map_insert_contained (k : Nat) (v : Int) (m : XMap) (l : Ledger) (frame : List Nat) (n : Nat)
+    (hi : XMap.Inv m l frame n) :
+    XMap.Inv (m.insert k v l).2.1 (m.insert k v l).2.2 frame n ∧ (m.insert k v l).1 ≠ .ub :=
+  XMap.insert_spec k v m l frame n hi
+
+/-- **XalanDeque (push_back / pop_back / clear, values whose copy may allocate): balanced and failure-contained.**
+For the code as written *and* for the repaired code (any `repaired`, `boxed`, block size): every history, every
+refusal index, every frame — blocks are recycled through the free vector, the two pointer vectors grow by
+copy-and-swap, element copies may be the refused request — after `~XalanDeque` exactly the frame is outstanding and
+nothing was freed twice or foreign. -/
+theorem deque_balanced_and_failure_contained (bs : Nat) (boxed repaired : Bool) (ops : List XBDeque.Op) (l : Ledger)
+    (frame : List Nat) (hl : l.live.Perm frame) :
+    let r := XBDeque.run ops { bs := bs, boxed := boxed, repaired := repaired } l
+    (r.2.1.destroy r.2.2).live.Perm frame ∧ (r.2.1.destroy r.2.2).bad = l.bad := by
+  intro r
+  have h0 : XBDeque.Good { bs := bs, boxed := boxed, repaired := repaired } l frame l.bad :=
+    ⟨by show ({} : XVec).WF; decide, by show ({} : XVec).WF; decide, by simpa [XBDeque.owned, XVec.owned] using holds_of_perm hl⟩
+  exact holds_nil_perm (XBDeque.destroy_spec _ _ frame l.bad (XBDeque.run_spec ops _ l frame l.bad h0))
+
+/-- **Repaired XalanDeque: every step is defined.** With proposed/C19-deque-push-empty-block.diff no block named by
+the index is ever empty and parked blocks hold nothing, for every history and every refusal index; the only
+undefined step is `pop_back()` on an empty deque (the caller's error). -/
+theorem deque_repaired_steps_defined (bs : Nat) (boxed : Bool) (ops : List XBDeque.Op) (op : XBDeque.Op) (l : Ledger)
+    (frame : List Nat) (hl : l.live.Perm frame) :
+    let r := XBDeque.run ops { bs := bs, boxed := boxed, repaired := true } l
+    (∀ b ∈ r.2.1.inIdx, b.elems ≠ []) ∧
+    ((XBDeque.step r.2.1 r.2.2 op).1 = .ub → op = .pop ∧ r.2.1.inIdx = []) := by
+  intro r
+  have h0 : XBDeque.Good { bs := bs, boxed := boxed, repaired := true } l frame l.bad :=
+    ⟨by show ({} : XVec).WF; decide, by show ({} : XVec).WF; decide, by simpa [XBDeque.owned, XVec.owned] using holds_of_perm hl⟩
+  have t0 : XBDeque.Tidy { bs := bs, boxed := boxed, repaired := true } :=
+    ⟨fun _ hb => by simp at hb, fun _ hb => by simp at hb, rfl⟩
+  obtain ⟨g, t⟩ := XBDeque.run_full ops _ l frame l.bad h0 t0
+  exact ⟨t.ne, (XBDeque.step_full _ op _ frame l.bad g t).2.2⟩
+
+/-- **Code as written: a refused element copy right after a new block was appended leaves an empty block at the end
+of the index; `pop_back()` then runs on an empty XalanVector.** Block size 1, `push 1; push 2` with request 8 (the
+copy of the second element) refused: size() still says 1, `pop_back()` is undefined.  Repaired: the same history
+leaves a deque of one block, and `pop_back()` returns it to the empty state. -/
+theorem deque_empty_trailing_block_counterexample :
+    (let r := XBDeque.run [.push 1, .push 2] { bs := 1, boxed := true } { failAt := 8 }
+     r.2.1.inIdx.length = 2 ∧ r.2.1.size = 1 ∧ (XBDeque.popBack r.2.1 r.2.2).1 = .ub) ∧
+    (let r := XBDeque.run [.push 1, .push 2] { bs := 1, boxed := true, repaired := true } { failAt := 8 }
+     r.2.1.inIdx.length = 1 ∧ r.2.1.size = 1 ∧ (XBDeque.popBack r.2.1 r.2.2).1 = .ok ∧
+     (XBDeque.popBack r.2.1 r.2.2).2.1.size = 0) := by decide
+
 /-- **"Reserve before create" (XalanTransformer.cpp:607-620, 747-778, 966-970).** After a
 successful `reserve(size()+1)` the `push_back` of the created object makes no allocation request
 and cannot throw: a created object is always stored in the vector that owns it. -/
@@ -326,8 +412,8 @@ theorem create_then_push_leaks_counterexample :
     r.1 = .oom ∧ r.2.2.1 = some 2 ∧ r.2.1.items = [7] ∧ r.2.2.2.live = [3, 2, 1] := by decide
 
 /-- **Arena block (ReusableArenaBlock + allocate/construct/commit protocol): balanced and
-failure-contained** — `_partial`: for the destructor that skips an allocated-but-uncommitted slot
-(proposed/C19-arena-uncommitted.diff); one block, not the block list of ArenaAllocator. Every
+failure-contained** — `_partial`: one block (the block list is `arena_blocklist_balanced_and_failure_contained`); for the destructor that skips
+an allocated-but-uncommitted slot (58854b0). Every
 history of `T::create` (constructor = one refusable allocation) and `destroyObject` on a freshly
 created block, every refusal index, every frame: the free-list discipline holds, `XalanDestroy` of
 the block runs no destructor on a slot without an object, returns every block and frees nothing
@@ -361,6 +447,63 @@ theorem arena_uncommitted_slot_counterexample :
       (r.2.1.destroy true r.2.2).1 = .ok ∧ (r.2.1.destroy true r.2.2).2.live = [] := by
   refine ⟨_, rfl, ?_⟩
   decide
+
+/-- **Free list of an arena block is never exhausted early.** In every state reachable from `ReusableArenaBlock::create`
+(every slot without an object is on the free list; `m_objectCount` ≤ block size and ≥ the number of objects), the
+allocate/construct/commit step is defined: `allocateBlock()` finds a free slot whenever `m_objectCount < m_blockSize`. -/
+theorem arena_free_list_not_exhausted (a : Arena) (x : Int) (l : Ledger) (frame : List Nat) (n : Nat) (hi : a.Inv)
+    (h : Holds l a.owned frame n) :
+    (a.construct x l).1 ≠ .ub ∧ (a.construct x l).2.2.1.Inv :=
+  ⟨(Arena.construct_spec x a l frame n hi h).2.2, (Arena.construct_spec x a l frame n hi h).1⟩
+
+/-- the operations of `ReusableArenaAllocator` on the objects it made: create, and destroyObject by (block, slot) -/
+inductive RAOp where
+  | create (x : Int)
+  | destroy (blk slot : Nat)
+deriving Repr, DecidableEq
+
+def raStep (r : RArena) (l : Ledger) : RAOp → RArena × Ledger
+  | .create x => ((r.create x l).2.2.1, (r.create x l).2.2.2)
+  | .destroy blk slot => ((r.destroyObject false blk slot l).2.1, (r.destroyObject false blk slot l).2.2)
+
+def raRun : List RAOp → RArena → Ledger → RArena × Ledger
+  | [], r, l => (r, l)
+  | op :: ops, r, l => let s := raStep r l op; raRun ops s.1 s.2
+
+/-- **Arena block list (ReusableArenaAllocator): balanced and failure-contained.** The allocator as an owner state
+machine — lazily headed list of blocks with a node free list, new block when the front is unavailable, full blocks
+to the tail, `destroyObject` with both scans and the move to the front, every block's commit protocol — for every
+history of `create` (block object, object array, list head, list node and the element's own allocation all
+refusable) and `destroyObject` (named objects, including objects that do not exist), every refusal index, every
+frame: every block keeps its invariant, the destructor destroys every block without touching a slot that holds no
+object, and afterwards exactly the frame is outstanding plus `lost` — the blocks whose `push_front` was refused
+after `ReusableArenaBlock::create` (recorded by the model in that one place; a leak on failure). Nothing is freed
+twice or foreign. -/
+theorem arena_blocklist_balanced_and_failure_contained (bs : Nat) (ops : List RAOp) (l : Ledger) (frame : List Nat)
+    (hl : l.live.Perm frame) :
+    let s := raRun ops { bs := bs } l
+    (s.1.destroy s.2).1 = .ok ∧ (s.1.destroy s.2).2.live.Perm (s.1.lost ++ frame) ∧ (s.1.destroy s.2).2.bad = l.bad := by
+  intro s
+  have h0 : RArena.RInv { bs := bs } l frame l.bad :=
+    ⟨fun _ hb => by simp at hb, by simpa [RArena.owned] using holds_of_perm hl, fun h => absurd rfl h⟩
+  have key : ∀ (ops : List RAOp) (r : RArena) (l' : Ledger), RArena.RInv r l' frame l.bad →
+      RArena.RInv (raRun ops r l').1 (raRun ops r l').2 frame l.bad := by
+    intro ops
+    induction ops with
+    | nil => intro r l' h; exact h
+    | cons op ops ih =>
+      intro r l' h
+      simp only [raRun]
+      apply ih
+      cases op with
+      | create x => exact (RArena.create_spec x r l' frame l.bad h).1
+      | destroy blk slot => exact RArena.destroyObject_balance blk slot r l' frame l.bad h
+  have hi := key ops _ l h0
+  obtain ⟨d1, d2⟩ := RArena.destroy_balance _ _ frame l.bad hi
+  refine ⟨d1, List.perm_iff_count.mpr (fun a => ?_), d2.2⟩
+  have := d2.1 a
+  simp only [List.count_append] at this ⊢
+  exact this
 
 /-- **`ReusableArenaAllocator::destroyObject` makes no allocation request** (it runs under
 `XObjectPtr::~XObjectPtr`, where a refused request would be std::terminate): whatever the object,
